@@ -99,6 +99,14 @@ type Exec struct {
 	capFork      bool
 	lastDiff     string
 	tier         int
+	fs           map[string]*fsFile
+	fsHandles    map[*Obj]*fsHandle
+	fsLog        []string
+	traced       map[*Obj]bool
+	tracedMaps   map[*MapV]bool
+	curThread    int
+	raceEvents   []raceEvent
+	raceQueries  int
 	formatCalls  int
 	formatFailAt int
 	deadline     time.Time
@@ -1166,6 +1174,7 @@ func (ex *Exec) mapFind(m *MapV, key Value) *mapEntry {
 	if m == nil {
 		return nil
 	}
+	ex.raceMap('R', m)
 	for _, e := range m.entries {
 		if e.deleted {
 			continue
@@ -1179,6 +1188,11 @@ func (ex *Exec) mapFind(m *MapV, key Value) *mapEntry {
 }
 
 func (ex *Exec) mapSet(m *MapV, key, val Value) {
+	ex.raceMap('W', m)
+	if ex.tracedMaps[m] {
+		ex.markTraced(key)
+		ex.markTraced(val)
+	}
 	if e := ex.mapFind(m, key); e != nil {
 		e.val = copyAgg(val)
 		return
@@ -1247,6 +1261,7 @@ func (ex *Exec) rangeIter(x Value) *RangeIter {
 	switch s := x.(type) {
 	case *MapV:
 		it := &RangeIter{m: s}
+		ex.raceMap('R', s)
 		if s != nil {
 			it.keys = s.live()
 			if ex.mapOrderFork && len(it.keys) > 1 {
@@ -1313,6 +1328,7 @@ func (ex *Exec) callBuiltin(fr *Frame, b *ssa.Builtin, args []Value, site ssa.In
 			if x == nil {
 				return tf.Const(64, 0)
 			}
+			ex.raceMap('R', x)
 			return tf.Const(64, uint64(len(x.live())))
 		case *ArrayV:
 			return tf.Const(64, uint64(len(x.elems)))
@@ -1373,6 +1389,7 @@ func (ex *Exec) callBuiltin(fr *Frame, b *ssa.Builtin, args []Value, site ssa.In
 		return tf.Const(64, uint64(n))
 	case "delete":
 		m, _ := args[0].(*MapV)
+		ex.raceMap('W', m)
 		if e := ex.mapFind(m, args[1]); e != nil {
 			e.deleted = true
 		}
